@@ -220,7 +220,7 @@ func (e *engCtx) beforeVehicleUnplan(sol nextroute.Solution, v nextroute.Solutio
 		if st.IsFirst() || st.IsLast() {
 			continue
 		}
-		if st.IsFixed() {
+		if !removableByVehicleUnplan(sol, st) {
 			nr = append(nr, st.ModelStop().Index())
 		} else {
 			n++
